@@ -51,13 +51,26 @@ func (k *Keeper) SetUndelegationRecords(ctx sdk.Context, records []types.Undeleg
 		singleRecKey := types.GetUndelegationRecordKey(record.BlockNumber, record.LzTxNonce, record.TxHash, record.OperatorAddr)
 		singleRecordStore.Set(singleRecKey, bz)
 
-		stakerKey := types.GetStakerUndelegationRecordKey(record.StakerID, record.AssetID, record.LzTxNonce)
+		// the index keys are suffixed with the (unique) record key: several records can share
+		// a staker, asset and nonce (one message undelegating from several operators) or a
+		// completion height and nonce (equal nonces of different stakers or client chains),
+		// and must not overwrite each other's index entries.
+		stakerKey := indexKeyForRecord(types.GetStakerUndelegationRecordKey(record.StakerID, record.AssetID, record.LzTxNonce), singleRecKey)
 		stakerUndelegationStore.Set(stakerKey, singleRecKey)
 
-		pendingUndelegationKey := types.GetPendingUndelegationRecordKey(record.CompleteBlockNumber, record.LzTxNonce)
+		pendingUndelegationKey := indexKeyForRecord(types.GetPendingUndelegationRecordKey(record.CompleteBlockNumber, record.LzTxNonce), singleRecKey)
 		pendingUndelegationStore.Set(pendingUndelegationKey, singleRecKey)
 	}
 	return nil
+}
+
+// indexKeyForRecord returns the key of the entry in a secondary index (staker or pending)
+// that points to the record identified by singleRecKey.
+func indexKeyForRecord(indexPrefix, singleRecKey []byte) []byte {
+	key := make([]byte, 0, len(indexPrefix)+1+len(singleRecKey))
+	key = append(key, indexPrefix...)
+	key = append(key, '/')
+	return append(key, singleRecKey...)
 }
 
 // DeleteUndelegationRecord deletes the undelegation record from the module.
@@ -70,10 +83,10 @@ func (k *Keeper) DeleteUndelegationRecord(ctx sdk.Context, record *types.Undeleg
 	singleRecKey := types.GetUndelegationRecordKey(record.BlockNumber, record.LzTxNonce, record.TxHash, record.OperatorAddr)
 	singleRecordStore.Delete(singleRecKey)
 
-	stakerKey := types.GetStakerUndelegationRecordKey(record.StakerID, record.AssetID, record.LzTxNonce)
+	stakerKey := indexKeyForRecord(types.GetStakerUndelegationRecordKey(record.StakerID, record.AssetID, record.LzTxNonce), singleRecKey)
 	stakerUndelegationStore.Delete(stakerKey)
 
-	pendingUndelegationKey := types.GetPendingUndelegationRecordKey(record.CompleteBlockNumber, record.LzTxNonce)
+	pendingUndelegationKey := indexKeyForRecord(types.GetPendingUndelegationRecordKey(record.CompleteBlockNumber, record.LzTxNonce), singleRecKey)
 	pendingUndelegationStore.Delete(pendingUndelegationKey)
 	return nil
 }
